@@ -59,12 +59,25 @@ func hookStr(ctx context.Context) string {
 	strCalls++
 	lastStrCtx = ctx
 	hookSeq++
-	return fmt.Sprintf("cs%d", hookSeq)
+	return csFor(hookSeq)
 }
+
+// csFor / cfEmpty: a hook that is set may have nothing to say for a request (an empty string, no
+// fields): it has been asked all the same, exactly once, and the record carries that answer.
+func csFor(k int) string {
+	if k%13 == 4 {
+		return ""
+	}
+	return fmt.Sprintf("cs%d", k)
+}
+func cfEmpty(k int) bool { return k%17 == 6 }
 func hookFld(ctx context.Context) []log.Field {
 	fldCalls++
 	lastFldCtx = ctx
 	hookSeq++
+	if cfEmpty(hookSeq) {
+		return nil
+	}
 	// the last context field has the same key as the call's own id field: both are in the record
 	return []log.Field{log.String("cf", fmt.Sprintf("v%d", hookSeq)), log.Int("cn", hookSeq), log.String("id", "ctx")}
 }
@@ -372,11 +385,15 @@ func TestC10_Hooks(t *testing.T) {
 				}
 				if set[1] {
 					k++
-					wantCS = fmt.Sprintf("cs%d", k)
+					wantCS = csFor(k)
 				}
+				noCF := true
 				if set[2] {
 					k++
-					wantCF = fmt.Sprintf(`{"cf":"v%d","cn":%d,"id":"ctx"}`, k, k)
+					if !cfEmpty(k) {
+						noCF = false
+						wantCF = fmt.Sprintf(`{"cf":"v%d","cn":%d,"id":"ctx"}`, k, k)
+					}
 				}
 				var line string
 				if logger == "builtin" {
@@ -418,7 +435,7 @@ func TestC10_Hooks(t *testing.T) {
 				if set[1] && !strings.Contains(line, wantCS) {
 					t.Fatalf("VERIF-VIOLATION C10: formatted line %q lacks the context string %q\n%s", line, wantCS, where)
 				}
-				if set[2] {
+				if set[2] && !noCF {
 					ci, ii := strings.Index(line, "cf"), strings.LastIndex(line, "id")
 					if ci < 0 || ii < 0 || ci > ii {
 						t.Fatalf("VERIF-VIOLATION C10: in the formatted line %q the context fields do not precede the call's fields\n%s", line, where)
@@ -469,59 +486,74 @@ func TestC10_Concurrent(t *testing.T) {
 		}
 		return shared
 	}
-	console.Reset()
 	log.Stdout = console
 	defer func() {
 		log.Destroy()
 		log.TimeNow, log.StringFromContext, log.FieldsFromContext = nil, nil, nil
 	}()
-	if err := log.Refresh(map[string]string{"enableCaller": "false", "appender.rec.type": "Rec", "appender.con.type": "Console", "appender.con.layout.type": "JSONLayout", "logger.l.type": "Logger", "logger.l.tags": "_c10_t", "logger.l.appenderRef[0].ref": "rec", "logger.l.appenderRef[1].ref": "con"}); err != nil {
-		t.Fatalf("VERIF-INCONCLUSIVE C10: %v", err)
-	}
-	const G, N = 8, 400
-	var wg sync.WaitGroup
-	for g := 0; g < G; g++ {
-		wg.Add(1)
-		go func() {
-			defer wg.Done()
-			for i := 0; i < N; i++ {
-				id := g*N + i
-				ctx := context.WithValue(context.Background(), idKey{}, id)
-				log.Info(ctx, tag, log.Int("id", id))
+	// through a synchronous logger (the hooks' results are formatted in the caller's goroutine) and
+	// through an asynchronous one (up to a hundred events are in flight between record() and the worker)
+	for _, kind := range []string{"Logger", "AsyncLogger"} {
+		log.Destroy()
+		vk.ResetRecs()
+		console.Reset()
+		tcalls.Store(0)
+		scalls.Store(0)
+		fcalls.Store(0)
+		cfgm := map[string]string{"enableCaller": "false", "appender.rec.type": "Rec", "appender.con.type": "Console", "appender.con.layout.type": "JSONLayout", "logger.l.type": kind, "logger.l.tags": "_c10_t", "logger.l.appenderRef[0].ref": "rec", "logger.l.appenderRef[1].ref": "con"}
+		if kind == "AsyncLogger" {
+			cfgm["logger.l.bufferSize"], cfgm["logger.l.bufferFullPolicy"] = "100", "Block"
+		}
+		if err := log.Refresh(cfgm); err != nil {
+			t.Fatalf("VERIF-INCONCLUSIVE C10: %v", err)
+		}
+		rec := vk.Rec("rec")
+		const G, N = 8, 400
+		var wg sync.WaitGroup
+		for g := 0; g < G; g++ {
+			wg.Add(1)
+			go func() {
+				defer wg.Done()
+				for i := 0; i < N; i++ {
+					id := g*N + i
+					ctx := context.WithValue(context.Background(), idKey{}, id)
+					log.Info(ctx, tag, log.Int("id", id))
+				}
+			}()
+		}
+		wg.Wait()
+		log.Destroy() // the asynchronous logger hands over what is still queued
+		items := rec.Items()
+		vk.EvalN(int64(len(items)))
+		vk.Class("concurrent-emitters:" + kind)
+		vk.NonTrivial("concurrent-emitters-8x400-" + kind)
+		vk.NonTrivial("concurrent-emitters-slow-hook-" + kind)
+		if tcalls.Load() != G*N || scalls.Load() != G*N || fcalls.Load() != G*N {
+			t.Fatalf("VERIF-VIOLATION C10: %d events emitted concurrently, hooks ran time=%d string=%d fields=%d times (each must run exactly once per emitted event)", G*N, tcalls.Load(), scalls.Load(), fcalls.Load())
+		}
+		if len(items) != G*N {
+			t.Fatalf("VERIF-VIOLATION C10: %d events emitted, %d recorded", G*N, len(items))
+		}
+		for _, it := range items {
+			wantCF := fmt.Sprintf(`{"cid":%d}`, it.ID)
+			if it.ID%2 == 0 {
+				wantCF = `{"app":"x"}`
 			}
-		}()
-	}
-	wg.Wait()
-	items := vk.Rec("rec").Items()
-	vk.EvalN(int64(len(items)))
-	vk.Class("concurrent-emitters")
-	vk.NonTrivial("concurrent-emitters-8x400")
-	vk.NonTrivial("concurrent-emitters-slow-hook")
-	if tcalls.Load() != G*N || scalls.Load() != G*N || fcalls.Load() != G*N {
-		t.Fatalf("VERIF-VIOLATION C10: %d events emitted concurrently, hooks ran time=%d string=%d fields=%d times (each must run exactly once per emitted event)", G*N, tcalls.Load(), scalls.Load(), fcalls.Load())
-	}
-	if len(items) != G*N {
-		t.Fatalf("VERIF-VIOLATION C10: %d events emitted, %d recorded", G*N, len(items))
-	}
-	for _, it := range items {
-		wantCF := fmt.Sprintf(`{"cid":%d}`, it.ID)
-		if it.ID%2 == 0 {
-			wantCF = `{"app":"x"}`
+			if it.CtxString != fmt.Sprintf("cs%d", it.ID) || it.CtxJSON != wantCF || !it.Time.Equal(baseTime.Add(time.Duration(it.ID)*time.Millisecond)) {
+				t.Fatalf("VERIF-VIOLATION C10: under concurrent emission the record of event id=%d carries context string %q, fields %s, time %v - not what the hooks returned for its own context", it.ID, it.CtxString, it.CtxJSON, it.Time)
+			}
 		}
-		if it.CtxString != fmt.Sprintf("cs%d", it.ID) || it.CtxJSON != wantCF || !it.Time.Equal(baseTime.Add(time.Duration(it.ID)*time.Millisecond)) {
-			t.Fatalf("VERIF-VIOLATION C10: under concurrent emission the record of event id=%d carries context string %q, fields %s, time %v - not what the hooks returned for its own context", it.ID, it.CtxString, it.CtxJSON, it.Time)
+		// the formatted lines: context string, context fields and the call's own field belong to one event
+		lineRe := regexp.MustCompile(`"ctxString":"cs(\d+)",(?:"app":"x"|"cid":(\d+)),"id":(\d+)\}$`)
+		lines := strings.Split(strings.TrimSuffix(console.String(), "\n"), "\n")
+		if len(lines) != G*N {
+			t.Fatalf("VERIF-VIOLATION C10: %d events emitted, %d formatted lines", G*N, len(lines))
 		}
-	}
-	// the formatted lines: context string, context fields and the call's own field belong to one event
-	lineRe := regexp.MustCompile(`"ctxString":"cs(\d+)",(?:"app":"x"|"cid":(\d+)),"id":(\d+)\}$`)
-	lines := strings.Split(strings.TrimSuffix(console.String(), "\n"), "\n")
-	if len(lines) != G*N {
-		t.Fatalf("VERIF-VIOLATION C10: %d events emitted, %d formatted lines", G*N, len(lines))
-	}
-	for _, ln := range lines {
-		m := lineRe.FindStringSubmatch(ln)
-		if m == nil || m[1] != m[3] || (m[2] != "" && m[2] != m[1]) {
-			t.Fatalf("VERIF-VIOLATION C10: under concurrent emission a formatted record mixes the context of one call with the fields of another: %q", ln)
+		for _, ln := range lines {
+			m := lineRe.FindStringSubmatch(ln)
+			if m == nil || m[1] != m[3] || (m[2] != "" && m[2] != m[1]) {
+				t.Fatalf("VERIF-VIOLATION C10: under concurrent emission a formatted record mixes the context of one call with the fields of another: %q", ln)
+			}
 		}
 	}
 }
